@@ -232,9 +232,22 @@ def assembled(ctx, bad):
             r_ = reprexec.run_assembled(case, "torch")
             layout_meta.append((info, r_))
             check_assembled(ctx, bad, info, r_)
-    for info, res in zip(tf_meta, run_tf(tf_cases)):
+    tf_res = run_tf(tf_cases)
+    subs, owners = [], []
+    for info in tf_meta:
+        case = info["case"]
+        l1, l2, t1, t2, t3 = expected_indexes(case["header"])
+        B, L, N, C = case["shape"]
+        data = np.array(case["data"], dtype=np.uint32).view(np.float32).reshape(B, L, N, C); pts = data.transpose(2, 0, 1, 3)
+        mk = lambda ixs_list: {"shape": [len(ixs_list[0]), B, L, C], "masked": False, "sets": [{"data": pc.f32_to_bits(pts[ix].reshape(-1)), "valid": [1] * (len(ix) * B * L)} for ix in (ixs_list + [ixs_list[0]] * (3 - len(ixs_list)))]}
+        if case["modules"][1] and l1:
+            subs.append(mk([l1, l2])); owners.append((id(info), "limb"))
+        if case["modules"][2] and t1:
+            subs.append(mk([t1, t2, t3])); owners.append((id(info), "tri"))
+    sub_res = dict(zip(owners, run_tf(subs))) if subs else {}
+    for info, res in zip(tf_meta, tf_res):
         layout_meta.append((info, res))
-        check_assembled(ctx, bad, info, res)
+        check_assembled(ctx, bad, info, res, {k[1]: v for k, v in sub_res.items() if k[0] == id(info)})
     reqs = [{"op": "rep_layout", "components": [{"name": pc.hx(c["name"]), "format": pc.hx(c["format"]), "points": [pc.hx(p) for p in c["points"]], "limbs": c["limbs"], "colors": [[255, 0, 0]]}
              for c in info["case"]["header"]["components"]], "n1": len(info["case"]["modules"][0]), "n2": len(info["case"]["modules"][1]), "n3": len(info["case"]["modules"][2])} for info, _ in layout_meta]
     for (info, res), mo in zip(layout_meta, ctx.driver.run(reqs) if reqs else []):
@@ -245,7 +258,7 @@ def assembled(ctx, bad):
             ctx.violation("limb / triple index lists or the advertised size differ from the model's", info, {"model": mo, "impl": {k: res[k] for k in ("limbs", "triangles", "output_size")}}, False)
 
 
-def check_assembled(ctx, bad, info, res):
+def check_assembled(ctx, bad, info, res, tf_direct=None):
     case, be = info["case"], info["backend"]
     sig = {"backend": be}
     if "error" in res:
@@ -280,12 +293,7 @@ def check_assembled(ctx, bad, info, res):
     if m3 and t1:
         direct["tri"] = reprexec.run_modules(sets([t1, t2, t3]), be) if be == "torch" else None
     if be == "tf":
-        sub = []
-        if m2 and l1: sub.append(sets([l1, l2]))
-        if m3 and t1: sub.append(sets([t1, t2, t3]))
-        got = run_tf(sub)
-        if m2 and l1: direct["limb"] = got.pop(0)
-        if m3 and t1: direct["tri"] = got.pop(0)
+        direct.update(tf_direct or {})
     for name, size, src in blocks:
         blk = out[:, :, pos:pos + size].transpose(2, 0, 1)                  # (size, B, L)
         r = src if isinstance(src, dict) else (direct[src[0]][src[1]] if src else None)
